@@ -121,3 +121,11 @@ def run(ctx):
     en = lib.calls_named(gp, r"Iterator::enumerate$")
     ctx.ob(R, "numbered-from-1|get_pages", ok and len(en) == 1, "page numbers are `%s` over enumerate()" % how, gp.where(),
            what="get_pages no longer numbers pages 1..n (enumerate index + 1)")
+    # what counts as a page-tree node is decided by the accessors the iterator goes through: a kid is a node only if it
+    # resolves to a dictionary (get_dictionary -> as_dict), its type by Dictionary::get_type / has_type on Name objects
+    for fn, want in (("Object::as_dict", {"Dictionary"}), ("Object::as_reference", {"Reference"}), ("Object::as_name", {"Name"}), ("Object::as_array", {"Array"})):
+        got = lib.ok_variants(F.fn(fn))
+        ctx.ob(R, "accessor-contract|%s" % fn, got == want, "%s succeeds exactly for %s" % (fn, sorted(want)), F.fn(fn).where(),
+               what="%s succeeds for the variants %s instead of %s: objects of another kind are taken for page-tree nodes (e.g. a stream whose dictionary says /Type /Page is yielded as a page)"
+                    % (fn, sorted(got) if got is not None else "?", sorted(want)))
+
